@@ -36,11 +36,18 @@ pub enum First {
     Foreign(String),
 }
 
+/// The first thing handed to the container's error type (type 0). Inside a field that carries
+/// `error = SimErrB` the reports go to that field's own error type; what the container's error
+/// type receives is the hand-over of the field's error, a foreign error to it, which the built-in
+/// types render through `Display` at the hand-over location.
 pub fn first_report(events: &[Event]) -> Option<(First, Path)> {
     for e in events {
         match e {
-            Event::Report { kind, loc, .. } => return Some((First::Kind(kind.clone()), loc.clone())),
-            Event::Foreign { token, loc, .. } => return Some((First::Foreign(token.clone()), loc.clone())),
+            Event::Report { ty: 0, kind, loc, .. } => return Some((First::Kind(kind.clone()), loc.clone())),
+            Event::Foreign { ty: 0, token, loc, .. } => return Some((First::Foreign(token.clone()), loc.clone())),
+            Event::Merge { ty: 0, other, other_ty: 1, other_reports, loc, .. } => {
+                return Some((First::Foreign(format!("SimErr<1>(v{other} {other_reports:?})")), loc.clone()))
+            }
             _ => {}
         }
     }
@@ -90,10 +97,6 @@ fn render_with<E: DeserializeError + std::fmt::Display>(first: &First, loc: &Pat
 
 /// `base` is the keep-going run of the scenario with the scripted error type.
 pub fn first_report_linkage(c: &mut Checker, base: &Run, rule: &'static str) {
-    if c.env.feats[c.scn.program].error_b {
-        // a concrete field-level error type is legitimately re-rendered by the built-in types
-        return;
-    }
     if matches!(base.outcome, Outcome::Panic(_)) {
         return;
     }
@@ -140,7 +143,7 @@ pub fn first_report_linkage(c: &mut Checker, base: &Run, rule: &'static str) {
 
 /// the production pairing: serde_json::Value as the source and JsonError as the error type
 pub fn first_report_linkage_json_source(c: &mut Checker, rule: &'static str) {
-    if c.env.feats[c.scn.program].error_b || !c.scn.doc.json_representable() {
+    if !c.scn.doc.json_representable() {
         return;
     }
     let mut bcfg = c.cfg(Script::AllC);
@@ -189,6 +192,22 @@ pub fn c14(c: &mut Checker) {
     first_report_linkage(c, &base, "H-first");
     if !c.found.is_empty() {
         return;
+    }
+    // where a field has its own error type, the place at which its error is handed to the
+    // container's error type is the place the built-in types print: it must be the field's own
+    // position (the linkage above compares two runs of the same code and cannot see this)
+    if c.env.feats[c.scn.program].error_b
+        && crate::checks::model_applies(c.scn)
+        && !matches!(base.outcome, Outcome::Panic(_))
+    {
+        let exp = c.model(&c.scn.doc);
+        let mut out = vec![];
+        crate::rules::m_handover("M-handover", &exp, &base, &mut out);
+        c.stats.bump("field_error_type_handover_positions_checked", exp.handovers.len() as u64);
+        c.record(out, &base_cfg, &base);
+        if !c.found.is_empty() {
+            return;
+        }
     }
     first_report_linkage_json_source(c, "H-first");
     if !c.found.is_empty() {
